@@ -17,6 +17,9 @@ def hAliasDerived : List (AOp Rat) :=
 def hAliasCache : List (AOp Rat) :=
   [.copy 0, .call 0 (.add "foo" foo2), .call 1 (.unit "foo"), .call 0 (.modifyF "foo" 3)]
 
+/-- `r.unit_system_id; cp = copy.copy(r); r.add("foo", …)` then `cp.unit_system_id` -/
+def hAliasMemo : List (AOp Rat) := [.call 0 .sysId, .copy 0, .call 0 (.add "foo" foo2)]
+
 /-- what registry object `i` answers after the history -/
 def agot (acfg : ACfg) (cfg : Cfg) (h : List (AOp Rat)) (i : Nat) (op : Op Rat) : Out Rat :=
   (astep acfg cfg pre parse (arun acfg cfg pre parse (afresh t0) h) i op).2
